@@ -42,6 +42,10 @@ pub struct Reg {
     /// When false, `make`/`drop`/`clone` do not touch the table (used by
     /// harness-internal scratch values).
     pub log_events: bool,
+    /// addresses of the live heap payloads of the heap-owning element types (native runs only): lets
+    /// `probe`/`drop` recognise a garbage or already freed payload pointer without dereferencing it
+    pub payloads: std::collections::HashSet<usize>,
+    pub retired_payloads: std::collections::HashSet<usize>,
 }
 
 thread_local! {
@@ -59,9 +63,52 @@ pub fn with<R>(f: impl FnOnce(&mut Reg) -> R) -> R {
 pub fn reset() {
     with(|r| {
         let counters = std::mem::take(&mut r.counters);
+        // payload bookkeeping survives a reset: values created before may still be dropped after it
+        let payloads = std::mem::take(&mut r.payloads);
+        let retired = std::mem::take(&mut r.retired_payloads);
         *r = Reg::default();
         r.counters = counters;
+        r.payloads = payloads;
+        r.retired_payloads = retired;
+        if r.retired_payloads.len() > 100_000 {
+            r.retired_payloads.clear();
+        }
     });
+}
+
+thread_local! {
+    static SAFE_PAYLOADS: std::cell::Cell<bool> = const { std::cell::Cell::new(false) };
+}
+/// Native runs: heap-owning elements validate their payload pointer against the table before using it
+/// (a duplicated payload is then reported as `double-drop`, garbage as `corrupt-*`, and the process survives).
+/// Tool runs (Miri, ASan, valgrind) switch this off so that the tool sees the real double free / wild read.
+pub fn set_safe_payloads(on: bool) {
+    SAFE_PAYLOADS.with(|c| c.set(on));
+}
+pub fn safe_payloads() -> bool {
+    SAFE_PAYLOADS.with(|c| c.get())
+}
+pub fn payload_add(addr: usize) {
+    with(|r| {
+        r.retired_payloads.remove(&addr);
+        r.payloads.insert(addr);
+    });
+}
+pub fn payload_known(addr: usize) -> bool {
+    with(|r| r.payloads.contains(&addr))
+}
+pub fn payload_was_freed(addr: usize) -> bool {
+    with(|r| r.retired_payloads.contains(&addr))
+}
+/// Returns true when the payload was live (and may now be freed).
+pub fn payload_remove(addr: usize) -> bool {
+    with(|r| {
+        let was = r.payloads.remove(&addr);
+        if was {
+            r.retired_payloads.insert(addr);
+        }
+        was
+    })
 }
 
 pub fn violation(kind: &'static str, detail: String) {
@@ -88,7 +135,7 @@ pub fn on_make(tag: u32, id: Id) {
 }
 
 /// Called from `Drop::drop` of a tracked element. `ok` = canary intact.
-pub fn on_drop(tag: u32, id: Id, ok: bool, name: &'static str) {
+pub fn on_drop(tag: u32, id: Id, ok: bool, name: &'static str) -> bool {
     with(|r| {
         r.drops += 1;
         if !ok {
@@ -98,7 +145,7 @@ pub fn on_drop(tag: u32, id: Id, ok: bool, name: &'static str) {
                     detail: format!("{name}: destructor ran on bytes that are not a live element (raw id {id:#x})"),
                 });
             }
-            return;
+            return false;
         }
         r.drop_log.push((tag, id));
         let c = r.live.entry((tag, id)).or_insert(0);
@@ -109,13 +156,15 @@ pub fn on_drop(tag: u32, id: Id, ok: bool, name: &'static str) {
                     detail: format!("{name}: element id {id} destroyed while no live instance exists"),
                 });
             }
+            false
         } else {
             *c -= 1;
             if *c == 0 {
                 r.live.remove(&(tag, id));
             }
+            true
         }
-    });
+    })
 }
 
 /// Called from `Clone::clone` of a tracked element (source side).
